@@ -61,9 +61,9 @@ CHECKS = {
         "technique": "solver-based bounded model checking (Kani/CBMC SAT) of the compiled /repo code against exact-rational reference models",
     },
     "C12": {
-        "text": "Scratch memory: for every Outline shape (counts <= 3), both hinting modes and every start alignment, a buffer of the advertised size suffices, slices have the documented lengths, are aligned and pairwise disjoint. Path well-formedness: to_path (both path styles) on every 3-point outline with one contour entry and every 4-point outline with two contour entries (symbolic end points, coordinates and on/off/cubic flags) emits (MoveTo Segment* Close)* with at most one move/close per contour entry, no segment outside a contour and finite coordinates, whenever it reports success.",
+        "text": "Scratch memory: for every Outline shape (counts <= 3), both hinting modes and every start alignment, a buffer of the advertised size suffices, slices have the documented lengths, are aligned and pairwise disjoint. Path well-formedness: to_path (both path styles) on every 3-point outline with one contour entry and every 4-point and 6-point outline with two contour entries (symbolic end points, coordinates and on/off/cubic flags) emits (MoveTo Segment* Close)* with at most one move/close per contour entry, no segment outside a contour and finite coordinates, whenever it reports success.",
         "design_ref": "DESIGN.md §3 C12",
-        "note": "The history/reuse/thread clauses of C12 are NOT decided by this check (whole fonts, Vec growth and thread schedules are out of reach); path well-formedness beyond 4 points (6 points / 2 contours) only in the thorough tier.",
+        "note": "The history/reuse/thread clauses of C12 are NOT decided by this check (whole fonts, Vec growth and thread schedules are out of reach); path well-formedness is decided for outlines of exactly 3, 4 and 6 points only.",
         "technique": "solver-based bounded model checking (Kani/CBMC SAT) of the compiled /repo code (in-crate harness)",
     },
     "C13": {
